@@ -153,6 +153,61 @@ pub fn apply_prepare(f: &mut Flow<(), Prepare>, cfg: &ReqCfg) -> Result<(), Stri
     Ok(())
 }
 
+/// Write the complete request head with large buffers. The writer need not be greedy: it may
+/// emit any whole number of lines per call, so this loops until the flow reports the head complete.
+pub fn write_whole_head(f: &mut Flow<(), SendRequest>) -> Result<Vec<u8>, String> {
+    let mut out = Vec::new();
+    let mut buf = vec![0u8; 16384];
+    for _ in 0..400 {
+        let n = f.write(&mut buf).map_err(|e| format!("{:?}", e))?;
+        out.extend_from_slice(&buf[..n]);
+        if f.can_proceed() {
+            return Ok(out);
+        }
+        if n == 0 {
+            return Err("head write returned Ok(0) before the head was complete".into());
+        }
+    }
+    Err("head not complete after 400 large writes".into())
+}
+
+/// Same for the single-call API with a body: the head phase ignores the input, so a non-empty
+/// dummy input is offered until the emitted bytes end the head (a head ends with an empty line).
+pub fn call_with_body_head(c: &mut ureq_proto::client::call::Call<ureq_proto::client::call::state::WithBody, ()>) -> Result<Vec<u8>, String> {
+    let mut out = Vec::new();
+    let mut buf = vec![0u8; 16384];
+    for _ in 0..400 {
+        let (i, n) = c.write(b"xx", &mut buf).map_err(|e| format!("{:?}", e))?;
+        if i != 0 {
+            return Err("body input consumed while the head was being written".into());
+        }
+        out.extend_from_slice(&buf[..n]);
+        if out.ends_with(b"\r\n\r\n") {
+            return Ok(out);
+        }
+        if n == 0 {
+            return Err("head write returned 0 bytes before the head was complete".into());
+        }
+    }
+    Err("head not complete after 400 large writes".into())
+}
+
+pub fn call_without_body_head(c: &mut ureq_proto::client::call::Call<ureq_proto::client::call::state::WithoutBody, ()>) -> Result<Vec<u8>, String> {
+    let mut out = Vec::new();
+    let mut buf = vec![0u8; 16384];
+    for _ in 0..400 {
+        let n = c.write(&mut buf).map_err(|e| format!("{:?}", e))?;
+        out.extend_from_slice(&buf[..n]);
+        if c.is_finished() {
+            return Ok(out);
+        }
+        if n == 0 {
+            return Err("head write returned 0 bytes before the head was complete".into());
+        }
+    }
+    Err("head not complete after 400 large writes".into())
+}
+
 // ------------------------------------------------------------------------------------------
 // Type-erased flow
 
